@@ -26,6 +26,7 @@ type deferEntry struct {
 	recv   *Val
 	callee types.Object
 	funVal *Val
+	builtin string     // deferred call of a builtin (close)
 	orig   *deferEntry // the entry created by the defer statement (copies made at merges point back to it)
 }
 
